@@ -4,6 +4,8 @@ C02 — Fills follow price-time priority; order comparison is a strict total ord
 import PamsLemmas.MarketLemmas
 import Mathlib.Data.Nat.Basic
 
+set_option linter.unusedSectionVars false
+
 namespace Pams.C02
 open Pams
 variable {P : Type} [LinearOrder P]
